@@ -8,7 +8,7 @@ from typing import Dict, List, Set
 from ..core import astutil as A
 from ..core.index import AnalysisError, ClassInfo, FuncInfo
 from ..selftest import M
-from .common import T, calls_named, need, where
+from .common import T, attr_stores, calls_named, every_origin, facts, need, where
 
 FC = "ufo2ft.featureCompiler.FeatureCompiler"
 
@@ -89,6 +89,7 @@ def run(prog, chk):
         "script-registration mode (explicit script/language statements vs. bare lookups that rely on languagesystem) agrees across the GPOS writers of the default writer list, or something adds languagesystem statements (R20.1)",
         "where scripts are registered explicitly, the languages registered under a tag are exactly those the feature file declares for that tag, default ['dflt'] (R20.2)",
         "the scripts / glyph classifications a writer registers are computed for the font of the current call: no per-font state or memoised result on the writer object (R20.3, shared with C08)",
+        "kerning is only registered under scripts the font is known to support: code points are classified by extensions & (knownScripts | DFLT), v2 registers subsets of knownScripts (R20.4)",
     ]
     chk.not_decided += ["which scripts a given font ends up with in the compiled ScriptList"]
     writers = default_writers(prog)
@@ -124,10 +125,11 @@ def run(prog, chk):
         else:
             raise AnalysisError(f"cannot determine how {w.name} registers its lookups")
     chk.minimum("R20.1", 6)
-    r202(prog, chk)
+    chk.guard(r202, prog, chk)
     # the scripts a writer registers are derived from the font of the current call only
     from . import c08
-    c08.r087(prog, chk, "R20.3")
+    chk.guard(c08.r087, prog, chk, "R20.3")
+    chk.guard(r204, prog, chk)
 
 
 def feature_tags(prog, w: ClassInfo) -> Set[str]:
@@ -142,8 +144,11 @@ def where_cls(w: ClassInfo) -> str:
     return f"{w.module.relpath}:{w.node.lineno}"
 
 
+TABLE_FIELDS = ("feaLanguagesByScript", "feaLanguagesByTag")
+
+
 # ----------------------------------------------------------------------------- R20.2
-def r202(prog, chk):
+def r202(prog, chk, rule="R20.2"):
     """Explicit registration: at every addLookupReferences(feature, lookups, <tag>, <languages>)
     the languages are exactly the ones the feature file declares for that same tag
     (<declared-by-tag>.get(<tag>, ["dflt"])).  Registering a language under a tag for
@@ -170,16 +175,114 @@ def r202(prog, chk):
                     # the same binding of the tag variable at both places
                     same = {id(d.binder) for d in prog.reaching(fi, tag.id, tag)} == {id(d.binder) for d in prog.reaching(fi, v.args[0].id, v.args[0])}
                 dflt = isinstance(v.args[1], (ast.List, ast.Tuple)) and [T(x) for x in v.args[1].elts] == ["'dflt'"]
-                src = "languages" in T(v.func.value).lower()
+                recv = v.func.value
+                src = False
+                if isinstance(recv, ast.Name):
+                    ds = prog.reaching(fi, recv.id, recv)
+                    src = bool(ds) and all(d.kind == "param" for d in ds)           # handed in by the caller: checked at the call site below
+                elif isinstance(recv, ast.Attribute):
+                    src = recv.attr in TABLE_FIELDS and "context" in T(recv.value)
                 ok = same and dflt and src
                 why = (f"languages are looked up for `{T(v.args[0])}` but registered under `{T(tag)}`" if not same else
-                       "the default is not ['dflt']" if not dflt else f"`{T(v.func.value)}` is not the declared-languages table")
-            chk.ob("R20.2", k, ok, where(fi, c), detail=f"{T(tag)} -> {T(v, 60) if v is not None else T(langs)}",
+                       "the default is not ['dflt']" if not dflt else f"`{T(v.func.value)}` is not the writer's per-tag table of declared languages itself (e.g. a per-script sub-table: "
+                       f"script aliases such as Hrkt would miss the declared languages)")
+            chk.ob(rule, k, ok, where(fi, c), detail=f"{T(tag)} -> {T(v, 60) if v is not None else T(langs)}",
                    message=f"{fi.short}: {why}: a script tag gets language systems that are not declared for it (only kerning is registered there)")
-    chk.minimum("R20.2", 4)
+    # producers: the table is flat, keyed by OpenType tag, over all declared language systems (no filter, script key ignored)
+    for fi in prog.ix.functions.values():
+        for st, t, val in [(s_, t_, v_) for fld in TABLE_FIELDS for (s_, t_, v_) in attr_stores(fi, fld)]:
+            ok = isinstance(val, ast.DictComp) and len(val.generators) == 2 and not val.generators[0].ifs and not val.generators[1].ifs
+            if ok:
+                g0, g1 = val.generators
+                inner = A.target_names(g1.target)
+                ok = T(val.key) == inner[0] and T(val.value) == inner[1] and isinstance(g1.iter, ast.Name) and g1.iter.id == A.target_names(g0.target)[-1] \
+                    and isinstance(g0.iter, ast.Call) and isinstance(g0.iter.func, ast.Attribute) and g0.iter.func.attr == "items"
+                if ok:
+                    okp, bad = every_origin(prog, fi, g0.iter.func.value, lambda x, f: isinstance(x, ast.Call) and A.callee_name(x) == "getScriptLanguageSystems"
+                                            and A.is_const(A.kwarg(x, "excludeDflt"), False), allow_const=False)
+                    ok = okp
+            chk.ob(rule, f"{fi.short}|{t.attr} = {{tag: languages}} over every declared language system", ok, where(fi, st), detail=T(val, 100),
+                   message=f"{fi.short}: the table of declared languages is not the flat map from every declared OpenType tag (DFLT included) to its languages")
+    # callers hand that table in
+    for fi in prog.ix.functions.values():
+        for c in calls_named(fi, "_registerLookups"):
+            a = c.args[2] if len(c.args) > 2 else A.kwarg(c, "feaLanguagesByScript")
+            ok, bad = every_origin(prog, fi, a, lambda x, f: isinstance(x, ast.Attribute) and x.attr in TABLE_FIELDS, allow_const=False) if a is not None else (False, [])
+            chk.ob(rule, f"{fi.short}|{A.keytext(fi.node, c)[:60]}|table argument", ok, where(fi, c), detail=T(a) if a is not None else "",
+                   message=f"{fi.short} does not hand the writer's per-tag table of declared languages to _registerLookups ({bad})")
+    chk.minimum(rule, 8)
+
+
+# ----------------------------------------------------------------------------- R20.4
+def r204(prog, chk):
+    """Scripts that generated kerning is registered under never leave the set of scripts the
+    font is known to support (declared language systems + scripts of its letters): v1
+    classifies code points by `extensions & (knownScripts | DFLT)`, v2 derives the scripts to
+    register from knownScripts directly."""
+    ix = prog.ix
+    k1 = ix.get_class("ufo2ft.featureWriters.kernFeatureWriter.KernFeatureWriter")
+    f = k1.methods["knownScriptsPerCodepoint"]
+    for r in A.returns_of(f.node):
+        v = r.value
+        if isinstance(v, ast.Name):
+            ds = prog.reaching(f, v.id, v)
+            vals = [d.value for d in ds]
+        else:
+            vals = [v]
+        ok = bool(vals)
+        for x in vals:
+            common = isinstance(x, ast.Set) and [T(e) for e in x.elts] == ["COMMON_SCRIPT"]
+            inter = isinstance(x, ast.BinOp) and isinstance(x.op, ast.BitAnd) and any("knownScripts" in T(side) for side in (x.left, x.right))
+            ok = ok and (common or inter)
+        chk.ob("R20.4", f"{f.short}|{A.keytext(f.node, r)[:60]}", ok, where(f, r), detail="{COMMON_SCRIPT} or extensions & (knownScripts | DFLT_SCRIPTS)",
+               message=f"{f.short} can classify a code point under a script the font is not known to support (`{T(r, 70)}`): kerning is then registered under a script for which "
+                       f"nothing else is registered")
+    fs_ = [r for r in A.returns_of(f.node) if isinstance(r.value, ast.Set)]
+    ok = len(fs_) == 1 and any(o == "falsy" and l.endswith("knownScripts") for o, l, r_ in facts(prog, f, fs_[0]))
+    chk.ob("R20.4", f"{f.short}|everything is common only when no script is known", ok, where(f), detail="if not self.context.knownScripts: return {COMMON_SCRIPT}", nontrivial=False,
+           message=f"{f.short}: the all-common shortcut is taken although scripts are known")
+    sc = k1.methods["setContext"]
+    cg = [c for c in calls_named(sc, "classifyGlyphs")]
+    ok = len(cg) >= 1 and T(cg[0].args[0]) == "self.knownScriptsPerCodepoint"
+    chk.ob("R20.4", f"{sc.short}|glyph scripts come from that classification", ok, where(sc), detail=T(cg[0], 80) if cg else "", message=f"{sc.short}: glyph scripts are not classified with knownScriptsPerCodepoint")
+    for cq in ("ufo2ft.featureWriters.kernFeatureWriter.KernFeatureWriter", "ufo2ft.featureWriters.kernFeatureWriter2.KernFeatureWriter"):
+        m = ix.get_class(cq).methods["setContext"]
+        st = [(s_, t, v) for s_, t, v in attr_stores(m, "knownScripts")]
+        ok = len(st) == 1 and T(st[0][2]) == "self.guessFontScripts()"
+        chk.ob("R20.4", f"{m.short}|knownScripts = self.guessFontScripts()", ok, where(m), detail=T(st[0][2]) if st else "", message=f"{m.short}: knownScripts is not the font's guessed scripts")
+    r2 = ix.get_func("ufo2ft.featureWriters.kernFeatureWriter2:register_lookups")
+    # the set iterated by the per-script registration loop
+    ok = False
+    for c in calls_named(r2, "addLookupReferences"):
+        loops = [a for a in ix.ancestors(c) if isinstance(a, ast.For)]
+        if len(loops) < 2:
+            continue
+        outer = loops[-1]
+        core = outer.iter.args[0] if isinstance(outer.iter, ast.Call) and A.callee_name(outer.iter) == "sorted" and outer.iter.args else outer.iter
+        if isinstance(core, ast.Name):
+            ds, work, seen_ = [], list(prog.reaching(r2, core.id, core)), set()
+            while work:
+                d = work.pop()
+                if id(d.binder) in seen_:
+                    continue
+                seen_.add(id(d.binder))
+                if d.kind == "augassign" and isinstance(d.binder.op, ast.Sub):
+                    work += list(prog.cfg(r2).reaching_defs(core.id, d.binder))   # only removes scripts
+                else:
+                    ds.append(d)
+            ok = len(ds) == 2 and all(d.kind == "assign" and "knownScripts" in T(d.value) and "DIST_ENABLED_SCRIPTS" in T(d.value) for d in ds)
+    chk.ob("R20.4", f"{r2.short}|scripts to register are a subset of knownScripts", ok, where(r2), detail="context.knownScripts - DIST / DIST & context.knownScripts",
+           message=f"{r2.short}: scripts outside knownScripts can be registered")
+    chk.minimum("R20.4", 6)
 
 
 MUTANTS = [
+    M("code points fall back to their own Script property when no extension is a known script (seeded C20d)", "ufo2ft/featureWriters/kernFeatureWriter.py", "KernFeatureWriter.knownScriptsPerCodepoint",
+      "return script_extension & (self.context.knownScripts | DFLT_SCRIPTS)", "scripts = script_extension & (self.context.knownScripts | DFLT_SCRIPTS)\nif not scripts:\n    scripts = {unicodedata.script(chr(uv))}\nreturn scripts", rule="R20.4"),
+    M("declared languages filed per Unicode script and looked up through a per-script sub-table (seeded C05d)", "ufo2ft/featureWriters/kernFeatureWriter.py", "KernFeatureWriter._registerLookups",
+      "languages = feaLanguagesByScript.get(tag, ['dflt'])", "languagesByTag = feaLanguagesByScript.get(script, {})\nlanguages = languagesByTag.get(tag, ['dflt'])", rule="R20.2"),
+    M("DFLT left out of the declared-languages table", "ufo2ft/featureWriters/kernFeatureWriter2.py", "KernFeatureWriter.setContext",
+      "ast.getScriptLanguageSystems(feaFile, excludeDflt=False)", "ast.getScriptLanguageSystems(feaFile)", rule="R20.2"),
     M("script classification memoised on the writer (seeded C20c)", "ufo2ft/featureWriters/kernFeatureWriter.py", "KernFeatureWriter.knownScriptsPerCodepoint",
       "<decorate>", "functools.lru_cache(maxsize=None)", rule="R20.3"),
     M("languages gathered per Unicode script instead of per tag (seeded C20b)", "ufo2ft/featureWriters/kernFeatureWriter.py", "KernFeatureWriter._registerLookups",
